@@ -3,6 +3,11 @@
 import json, subprocess, sys
 
 claimed = {
+ "C12": dict(
+   text="Deductively proved (as identities between IEEE-754 terms, for all float64 inputs including NaN and infinities): the Welch, pooled and one-sample t-tests report undersized samples and zero variance as the documented errors and otherwise return the textbook statistic, the textbook degrees of freedom (Welch-Satterthwaite; n1+n2-2; n-1) and sample sizes, in the textbook order of operations; newTTestResult selects the tail — two-sided is twice the upper tail of |t|, less/greater the lower/upper tail of t — from the t distribution with exactly those degrees of freedom.  The numerical content (Student-t and normal distribution functions and inverses, the incomplete beta continued fraction and its convergence, lgamma, and the accuracy of mean/variance/geomean/percentiles) is floating-point analysis outside deductive reach and is covered by a bounded stand-in over degrees of freedom 1..1e5 and random samples against exact rational arithmetic.",
+   note="Trusted: TDist.CDF is named by the ghost function tcdf (its values are only checked by the bounded stand-in); math.Sqrt/math.Pow are functions of their arguments; interface methods Weight/Mean/Variance are functions of the receiver; float64->int truncation is uninterpreted.  PairedTTest (Mean/StdDev over a difference vector) is bounded only.",
+   technique="contract-based deductive verification (own VC generator over go/ssa; floats as SMT FloatingPoint; interface calls as uninterpreted functions; z3/cvc5) + bounded numerical stand-in against quadrature, textbook formulas and exact rational arithmetic",
+   design="5/C12"),
  "C16": dict(
    text="Deductively proved: the column header tree — NewKeyHeader and its recursive closure walk are verified against a tiling contract: at every node the children are non-nil nodes of the next level, each covering at least one key, the first starting at the parent's first key, each next one starting exactly where the previous one ends and the last ending at the parent's last key (no gap, no overlap: every column lies under exactly one header cell per level), with the recursion checked against the same contract and the top level tiling [0, len(keys)); align.lpad pads by character count (centred: half the free width on the left; right: full width; left: none).  The width distribution of Table.Format (two sorts through closures, a permutation of the span's columns, cumulative offsets), the benchtab renderers and the scaler are not under contract: covered by two bounded stand-ins — random tables measured in the rendered text, and text-versus-CSV comparison of whole benchstat runs.  The layout check exposed a genuine defect (a span over only shrink columns was never widened: misaligned header rules in benchstat) — fixed.",
    note="Trusted: FlattenedFields (as in C08); fmt.Sprintf is an uninterpreted function of format and operands (so lpad's contract pins the operands, not the rendered blanks); utf8.RuneCountInString is a function bounded by the byte length.  Termination of the recursive closure is not proved.  Table-key heading lines such as `note: ` (empty value) end in a blank; they are headings, not table lines, and are not counted.",
